@@ -1,0 +1,72 @@
+// Copyright 2025 The Go Authors. All rights reserved.
+// Use of this source code is governed by a BSD-style
+// license that can be found in the LICENSE file.
+
+//go:build verif
+
+package atom
+
+// Contracts, spec functions and lemma harnesses for the deductive verifier in /verif (govc).
+// This file is compiled only with -tags verif; it adds no behaviour to the package.
+
+// ---------------------------------------------------------------------------
+// The atom table is an exact dictionary (property C42).
+
+//@ func fnv(h, s) (r)
+//@   loop 1 invariant -1 <= rangeindex && rangeindex < len(s)
+//@
+//@ func match(s, t) (ok)
+//@   requires len(t) <= len(s)
+//@   ensures  ok <==> (forall k int :: 0 <= k && k < len(t) ==> s[k] == t[k])
+//@   loop 1 invariant -1 <= rangeindex && rangeindex < len(t)
+//@   loop 1 invariant forall j int :: 0 <= j && j <= rangeindex ==> s[j] == t[j]
+//@
+//@ func (Atom).string(a) (r)
+//@   inline
+//@
+//@ func Lookup(s) (a)
+//@   uses lemmaTableEntry
+//@   hide table
+//@   ensures a != 0 ==> isdeclared(a)
+//@   ensures a != 0 ==> len(s) == int(a&0xff) && int(a>>8) + len(s) <= len(atomText)
+//@   ensures a != 0 ==> (forall k int :: 0 <= k && k < len(s) ==> atomText[int(a>>8)+k] == s[k])
+
+// lemmaTableEntry: every slot of the hash table is empty or a well-formed (offset, length)
+// reference into atomText, and is one of the declared atom constants.
+//
+//@ lemma
+//@ requires idx < 512
+//@ ensures table[idx] == 0 || (table[idx]&0xff >= 1 && int(table[idx]&0xff) <= maxAtomLen && int(table[idx]>>8) + int(table[idx]&0xff) <= len(atomText))
+//@ ensures table[idx] == 0 || isdeclared(table[idx])
+func lemmaTableEntry(idx uint32) {
+}
+
+// lemmaLookupEach is instantiated for every declared Atom constant (clause `each`):
+// its name is non-empty and looking the name up yields the atom. The instances run over
+// the real bodies of Lookup, fnv and match with constant input (complete evaluation).
+//
+//@ lemma
+//@ each a
+//@ usebody Lookup, fnv, match
+//@ ensures ok
+func lemmaLookupEach(a Atom) (ok bool) {
+	s := a.String()
+	return len(s) > 0 && Lookup([]byte(s)) == a
+}
+
+// lemmaNonAtom: a byte string for which Lookup answers a non-zero atom is that atom's name,
+// so every string that is not the name of an atom maps to 0.
+//
+//@ lemma
+//@ ensures ok
+func lemmaNonAtom(s []byte) (ok bool) {
+	a := Lookup(s)
+	if a == 0 {
+		return true
+	}
+	name := a.String()
+	if len(name) != len(s) {
+		return false
+	}
+	return match(name, s)
+}
